@@ -1,6 +1,6 @@
 #!/bin/bash
 # usage: scripts/try_seed.sh <patch.diff> <property id>...   apply a patch to /repo, run the checks, undo
-P=$1; shift
+P=$(readlink -f "$1"); shift
 cd /repo || exit 2
 if ! git diff --quiet || ! git diff --cached --quiet; then echo "REFUSING: /repo has uncommitted changes to tracked files (commit them first)"; exit 4; fi
 if ! git apply --check "$P" 2>/dev/null; then echo "PATCH DOES NOT APPLY: $P"; git apply --check "$P"; exit 3; fi
